@@ -13,7 +13,9 @@ Require Import Gengo.Base.Bytes Gengo.Model.Pipeline Gengo.Model.Whole.
 Require Import Gengo.Proofs.Pipeline Gengo.Proofs.PipelinePkg Gengo.Proofs.PipelineC02.
 Require Import Gengo.Proofs.WholeSum Gengo.Proofs.WholeDispatch Gengo.Proofs.WholeTrace Gengo.Proofs.WholeGenFile
   Gengo.Proofs.WholeCrash.
-Require Gengo.Model.SumFile Gengo.Model.SumCache Gengo.Model.Dispatch Gengo.Model.GenFile.
+Require Import Gengo.Model.WholeDet Gengo.Proofs.WholeDet.
+Require Gengo.Model.SumFile Gengo.Model.SumCache Gengo.Model.Dispatch Gengo.Model.GenFile Gengo.Model.Determinism.
+Require Gengo.Proofs.Determinism.
 Require Gengo.Proofs.SumFile Gengo.Proofs.SumCache Gengo.Proofs.Dispatch Gengo.Proofs.WholeTorn.
 From Coq Require Import Permutation.
 
@@ -80,6 +82,80 @@ Theorem Whole_dispatch_is_pipeline :
       /\ out_match (exec_outcome E a w (map (disp_gen wps fuel) gens) s) o.
 Proof. exact dispatch_agree. Qed.
 Print Assumptions Whole_dispatch_is_pipeline.
+
+(* ---- 1c. Determinism (C04) and Pipeline: gengo.Execute end to end read twice ----
+   From the pipeline's input Model/WholeDet.v derives Determinism's (its world: Defs = the type table, one file of
+   package tags, no methods; its generators: the pipeline's state machines folded over the call list; render = the
+   pipeline's formatter on the assembled source; parse_sum = the byte-level sumfile.Load).  For EVERY order oracle o
+   that shuffles and is a rearrangement of positions ([natural]: it commutes with map), Determinism.run — taking the
+   one order the pipeline leaves open, the sync.Map of retained genfiles, from o ([only_gfs o]; C04_order_independent
+   says every other oracle gives the same result) — fails exactly when Pipeline.exec under e_order := [order_of o]
+   does not return Done, and otherwise yields the same content at every path (gengo.sum included) and the same
+   sequence of GenerateType / GenerateAliasType calls.
+   [world_wf]: distinct package paths; per package distinct type names, tag maps with distinct keys. *)
+Theorem Whole_determinism_is_pipeline :
+  forall fmt G (o : Determinism.oracle) a w,
+    world_wf w -> Determinism.shuffles o -> natural o ->
+    forall gens, NoDup (map g_name gens) -> forall s,
+    let E := whole_env fmt (order_of o) G in
+    match Determinism.run true true (det_render fmt) det_parse_sum (only_gfs o) (det_args G a) (w_direct w) (det_world w)
+                          (map (det_gen w) gens) (det_fs s) with
+    | None => exec_outcome E a w gens s <> Done
+    | Some (f', log) =>
+        exec_outcome E a w gens s = Done
+        /\ (forall q, f' q = fs_lookup q (exec_fs E a w gens s))
+        /\ flat_log log = flat_trace (exec_trace E a w gens s)
+    end.
+Proof. exact det_agree. Qed.
+Print Assumptions Whole_determinism_is_pipeline.
+
+(* C04's order independence transfers: Pipeline.exec of the composed system does not depend on the iteration order of
+   the sync.Map of retained genfiles — both runs succeed or neither does, and successful runs leave the same content at
+   every path and make the same calls.  (Proved through 1c and C04_order_independent, not on the pipeline model.) *)
+Theorem Whole_pipeline_order_independent :
+  forall fmt G (o1 o2 : Determinism.oracle) a w gens s,
+    world_wf w -> Determinism.shuffles o1 -> Determinism.shuffles o2 -> natural o1 -> natural o2 ->
+    NoDup (Dispatch.keys G) -> NoDup (map g_name gens) ->
+    let E1 := whole_env fmt (order_of o1) G in
+    let E2 := whole_env fmt (order_of o2) G in
+    (exec_outcome E1 a w gens s = Done <-> exec_outcome E2 a w gens s = Done)
+    /\ (exec_outcome E1 a w gens s = Done ->
+        (forall q, fs_lookup q (exec_fs E1 a w gens s) = fs_lookup q (exec_fs E2 a w gens s))
+        /\ flat_trace (exec_trace E1 a w gens s) = flat_trace (exec_trace E2 a w gens s)).
+Proof. exact pipeline_order_independent. Qed.
+Print Assumptions Whole_pipeline_order_independent.
+
+(* ... and C07 / C02 transfer the other way: of Determinism.run on such inputs, a failing run (None) is a pipeline run
+   that did not return Done (C02's theorems say what it has and has not done), and a successful run leaves every path
+   that is not gengo's own output as it was (C07_frame). *)
+Theorem Whole_determinism_fails_iff_pipeline_fails :
+  forall fmt G (o : Determinism.oracle) a w,
+    world_wf w -> Determinism.shuffles o -> natural o ->
+    forall gens, NoDup (map g_name gens) -> forall s,
+    Determinism.run true true (det_render fmt) det_parse_sum (only_gfs o) (det_args G a) (w_direct w) (det_world w)
+                    (map (det_gen w) gens) (det_fs s) = None
+    <-> exec_outcome (whole_env fmt (order_of o) G) a w gens s <> Done.
+Proof. exact det_fails_iff. Qed.
+Print Assumptions Whole_determinism_fails_iff_pipeline_fails.
+
+Theorem Whole_determinism_frame :
+  forall fmt G (o : Determinism.oracle) a w,
+    world_wf w -> Determinism.shuffles o -> natural o ->
+    forall gens, NoDup (map g_name gens) -> forall s f' log q,
+    Determinism.run true true (det_render fmt) det_parse_sum (only_gfs o) (det_args G a) (w_direct w) (det_world w)
+                    (map (det_gen w) gens) (det_fs s) = Some (f', log) ->
+    ~ own_output (whole_env fmt (order_of o) G) a w s q -> f' q = det_fs s q.
+Proof. exact det_frame. Qed.
+Print Assumptions Whole_determinism_frame.
+
+(* the identity and the reversing oracle are legal and natural *)
+Example Whole_natural_oracles :
+  natural Determinism.oid /\ natural Gengo.Proofs.Determinism.rev_oracle
+  /\ Determinism.shuffles Determinism.oid /\ Determinism.shuffles Gengo.Proofs.Determinism.rev_oracle.
+Proof.
+  split; [intros A B f site l; reflexivity|]. split; [intros A B f site l; symmetry; apply map_rev|].
+  split; [exact Gengo.Proofs.Determinism.oid_shuffles | exact Gengo.Proofs.Determinism.rev_oracle_shuffles].
+Qed.
 
 (* ---- 1d. GenFile (C01) and Pipeline: genfile.go 60-144, context.go 223-231 read twice ----
    The pipeline's assembled source is GenFile's with an empty import table; with e_fmt := C01's formatter
